@@ -555,7 +555,8 @@ pub fn run_episode(inst: &mut Instance, st: &Stream, e: &Episode) -> Vec<Violati
             detail: format!("replies {:?} requests {:?}", reply_ids, want_ids),
         });
     }
-    if inst.logging && logs == 0 {
+    // (only meaningful if the episode is otherwise fine: a driver that died produces no logs either)
+    if inst.logging && logs == 0 && vs.is_empty() {
         vs.push(Violation {
             property: "C17",
             clause: "machinery",
@@ -644,6 +645,9 @@ fn interleavings(st: &Stream, ep: u64) -> Vec<Episode> {
 }
 
 fn run_set(name: &str, episodes: &mut dyn Iterator<Item = Episode>, logging: bool, shared: &mut Option<Instance>, result: &mut JobResult, outcomes: &mut std::collections::HashSet<u64>) {
+    if logging && !result.found.is_empty() {
+        return;
+    }
     let mut n = 0u64;
     for e in episodes {
         let st = stream(e.ep);
@@ -671,8 +675,12 @@ fn run_set(name: &str, episodes: &mut dyn Iterator<Item = Episode>, logging: boo
             format!("{:?}{:?}", e.steps, e.writer_modes).hash(&mut h);
             outcomes.insert(h.finish());
         }
+        let broken = logging && vs.iter().any(|v| v.clause != "machinery");
         for v in vs {
             if v.clause == "machinery" {
+                if broken {
+                    continue;
+                }
                 result.error = Some(format!("{}: {} {}", name, v.shape, v.detail));
                 return;
             }
@@ -683,6 +691,10 @@ fn run_set(name: &str, episodes: &mut dyn Iterator<Item = Episode>, logging: boo
                     replay: json!({"engine": "F", "scenario": name, "episode": e.describe(), "logging": logging}),
                 });
             }
+        }
+        if broken {
+            // the long-lived instance may be dead now: nothing it does afterwards means anything
+            break;
         }
     }
     result.extra.insert(name.to_string(), json!(n));
